@@ -20,7 +20,7 @@ class Std(Scenario):
         self.kw = kw
         g = kw.get
         self.cfg = dict(profile=g('profile', 'pubsub'), mode=g('mode', 'sync'), naddr=g('naddr', 1))
-        for k in ('id0', 'split', 'ondisc', 'onpub', 'onmade', 'reenter'):
+        for k in ('id0', 'split', 'ondisc', 'onpub', 'onmade', 'reenter', 'reenter_max'):
             if k in kw:
                 self.cfg[k] = kw[k]
         self.init = tuple(g('init', ()))
